@@ -33,6 +33,8 @@ PROBES = [
     "value-is-a-default-subtree-body",
     "reopened-on-compacted-store",
     "moved-to-earlier-root-by-assignment",
+    "second-handle-on-the-same-store",
+    "unrelated-tree-in-the-same-process",
     "write-failed-on-lossy-store",
     "write-acknowledged-on-lossy-store-readable",
 ]
@@ -242,6 +244,51 @@ class SWorld:
         k = unhx(cmd["k"])
         return self.lookup(self.smt, Blob(k) if cmd.get("sub") else k, cmd.get("api", "get"))
 
+    def op_other(self, cmd):
+        """Another client works with a tree object of its own: either an unrelated tree on
+        its own store (same process), or a second handle on the *same* store, opened at the
+        root that was current when it first appeared.  Each client must be served as if it
+        were alone."""
+        if self.degraded:
+            return "skip"
+        shared = bool(cmd.get("shared"))
+        slot = "other_shared" if shared else "other_own"
+        o = getattr(self, slot, None)
+        if o is None:
+            if shared:
+                t = SparseMerkleTree.from_db(self.db, fresh(self.smt.root_hash), key_size=self.ks, default=fresh(self.default))
+                o = [t, dict(self.model)]
+            else:
+                t = SparseMerkleTree(key_size=self.ks, default=fresh(self.default))
+                o = [t, {}]
+            setattr(self, slot, o)
+        t, model = o
+        k, v = unhx(cmd["k"]), unhx(cmd["v"])
+        try:
+            t.set(k, v)
+        except Exception as e:
+            self.viol("lookup-mismatch", f"another client's set({k.hex()}) on its own tree object raised {e!r}")
+        model[k] = v
+        want_root = self.ref.root(model)
+        if t.root_hash != want_root:
+            self.viol("root-mismatch", "another client's tree (its own object" + (", same store" if shared else ", own store") + ") has a root that is not the Merkle root of its contents")
+        for kk in sorted(model)[:3]:
+            vv = model.get(kk, self.default)
+            try:
+                got = t.get(kk) if vv != b"" else None
+            except Exception as e:
+                self.viol("lookup-mismatch", f"another client's get({kk.hex()}) raised {e!r}")
+            if vv != b"" and got != vv:
+                self.viol("lookup-mismatch", f"another client's get({kk.hex()}) gave {got!r}, it wrote {vv!r}")
+        # ... and this client's tree is what it was
+        if self.smt.root_hash != self.ref.root(self.model):
+            self.viol("root-mismatch", "the tree's root changed although only another client's object was used")
+        for kk in sorted(self.model)[:3]:
+            self.lookup(self.smt, kk, "get")
+            self.check_key(kk)
+        self.st.probe("second-handle-on-the-same-store" if shared else "unrelated-tree-in-the-same-process")
+        return "ok"
+
     def op_rewind(self, cmd):
         """The client moves the live object to a root the tree had earlier (or that another
         client wrote on the same store) by assigning root_hash, as from_db does; nothing is
@@ -296,6 +343,7 @@ class SWorld:
             seen |= level
             self.db = make_store(self.cfg, {x: raw[x] for x in seen})
             self.known = {}  # earlier roots did not survive the compaction
+            self.other_shared = None  # nor did what the other handle on the old store wrote
             self.st.probe("reopened-on-compacted-store")
         try:
             other = SparseMerkleTree.from_db(self.db, fresh(self.smt.root_hash), key_size=self.ks, default=fresh(self.default))
@@ -436,6 +484,11 @@ def generate(rng):
     vals = make_values(rng, unhx(cfg["default"]))
     n = rng.choice(deep([6, 10, 16, 25, 40], [10, 20, 40, 80])) if cfg["ks"] <= 8 else rng.choice(deep([6, 10, 16], [10, 20, 30]))
     cmds = gen_history(rng, keys, vals, n)
+    if rng.random() < 0.3 and len(cmds) > 2:
+        # other clients with tree objects of their own, interleaved
+        shared = int(rng.random() < 0.6)
+        for _ in range(rng.choice([1, 2, 4, 6])):
+            cmds.insert(rng.randrange(1, len(cmds) + 1), {"op": "other", "shared": shared if rng.random() < 0.8 else 1 - shared, "k": hx(rng.choice(keys)), "v": hx(rng.choice(vals))})
     if rng.random() < 0.3 and len(cmds) > 4:
         # now and then the live object is moved to an earlier root by assignment
         for _ in range(rng.choice([1, 2, 3])):
